@@ -129,8 +129,13 @@ def rand_network(rng, ns=None, nr=None, nenv=None, max_order=3, chem_p=0.15, dif
     ns = ns or rng.randint(1, 4)
     nr = rng.choice([0, 1, 1, 2, 2, 3]) if nr is None else nr
     nenv = nenv or rng.choice([1, 1, 2, 3])
+    # declared in NON-alphabetical order most of the time: every table of the engine is indexed by declaration order
     labels = LABELS[:ns]
     envs = ENVS[:nenv]
+    if rng.random() < 0.75:
+        labels = labels[::-1] if rng.random() < 0.5 else rng.sample(labels, len(labels))
+    if rng.random() < 0.75:
+        envs = envs[::-1] if rng.random() < 0.5 else rng.sample(envs, len(envs))
     kch = kchoices or [Fraction(1, 4), Fraction(1, 2), 1, 2, Fraction(3, 2), Fraction(1, 8)]
     species = []
     for lab in labels:
